@@ -18,6 +18,15 @@ CHECKS = {
               "Denials only at accesses pertaining to the process; a lone ENOENT on a live process is not injected."),
         design="DESIGN.md section 3 C03",
     ),
+    "C05": dict(
+        level="exploration",
+        technique="property-based testing (Hypothesis) + exhaustive enumeration of small parent maps: generated process tables -> reference graph model; termination as an OS-access bound",
+        text=("Generated process tables (arbitrary parent maps incl. self-loops, cycles, unlisted parents; start-time orders incl. ties; zombies), the caller's PID recycled after object creation "
+              "and other processes vanishing at generated accesses during the walk are run through the real children/parent/parents over a simulated procfs and compared with a reference "
+              "graph model; all parent maps x start orders x callers for n<=3 (quick) / n<=4 (thorough) are enumerated exhaustively. Search, not proof, beyond those sizes."),
+        note=("Trusted: vlib/simk.py process table. Root (lowest listed PID) may answer None; parents() only on acyclic chains; paths through an excluded older node accepted either way."),
+        design="DESIGN.md section 3 C05",
+    ),
     "C06": dict(
         level="exploration",
         technique="property-based testing (Hypothesis): generated kernel records -> model round-trip oracle over a simulated procfs",
